@@ -152,6 +152,7 @@ structure Commit (π : Type) where
   tags : List BN            -- numbers of the build tags on the commit (any order)
   isMatch : Bool            -- `search_text in commit.message`
   pins : π                  -- component versions saved in the commit (C07)
+  time : Nat                -- `committed_date` (seconds)
 
 structure Hist (π : Type) where
   commits : List (Commit π)
@@ -164,6 +165,7 @@ structure RC where
   parents : List Nat        -- iids, in `rc_parents` order (may repeat an iid)
   explicit : Bool
   bns : List BN
+  time : Nat                -- `rcommit.commit.committed_date`
   deriving Repr
 
 /-- `RBuild` -/
@@ -178,8 +180,10 @@ structure RB (β : Type) where
 
 /-- what component repositories contribute to the analysis of one repository (C07) -/
 structure Plug (π β : Type) where
-  rel : Bool                                   -- some component has reported builds (`relevant_cmpnts` non-empty)
-  mkBumps : π → List β → Except Err β           -- `_mk_bumps_info` from the pins and the bumps of the parent builds
+  relInit : List Nat                            -- the components with reported builds (keys of `components_versions_maps`)
+  relStep : Nat → List Nat → List Nat           -- `_get_relevant_cmpnts_names` : commit time, candidates ↦ still relevant
+  mkBumps : List Nat → π → List β → Except Err β -- `_mk_bumps_info` for the relevant components, from the pins and the
+                                                -- bumps of the parent builds
   nonTrivial : β → Bool                         -- `any(not bump.is_trivial())`
   pending : β → Except Err β                    -- pending bumps of the pseudo build, from the latest build's bumps
   noBumps : β
@@ -187,7 +191,7 @@ structure Plug (π β : Type) where
 
 /-- single repository without components -/
 def Plug.none {π} : Plug π Unit :=
-  { rel := false, mkBumps := fun _ _ => .ok (), nonTrivial := fun _ => false,
+  { relInit := [], relStep := fun _ r => r, mkBumps := fun _ _ _ => .ok (), nonTrivial := fun _ => false,
     pending := fun _ => .ok (), noBumps := (), isEmpty := fun _ => true }
 
 /-- `_RepoParserCache` + the graph under construction -/
@@ -392,10 +396,10 @@ def St.skipBuild {β} (st : St β) (c : Nat) (fr : List Nat) (bns : List BN) (bp
   { rp := st.rp.addPlain c fr,
     br := { st.br with bparents := bpar, bnMap := pb.foldl (fun m rb => setAll bns rb m) st.br.bnMap } }
 
-/-- `_mk_rcommits` and the registration of its results -/
-def finish {π β} (pl : Plug π β) (head : Nat) (st : St β) (c : Nat) (cm : Commit π) (frontier : List Nat) :
-    Except Err (St β) :=
-  if !(cm.isMatch || pl.rel || !frontier.isEmpty) then
+/-- `_mk_rcommits` and the registration of its results; `rel` = `accumdat.relevant_cmpnts` of the commit -/
+def finish {π β} (pl : Plug π β) (head : Nat) (rel : List Nat) (st : St β) (c : Nat) (cm : Commit π)
+    (frontier : List Nat) : Except Err (St β) :=
+  if !(cm.isMatch || !rel.isEmpty || !frontier.isEmpty) then
     .ok { st with rp := st.rp.addDone c }
   else if !cm.tags.isEmpty || c == head then
     match findNew st.rp st.br frontier with
@@ -405,7 +409,7 @@ def finish {π β} (pl : Plug π β) (head : Nat) (st : St β) (c : Nat) (cm : C
       match buildsOf st.rp pb with
       | none => .error .keyError
       | some pbs =>
-        match pl.mkBumps cm.pins (pbs.map (·.bumps)) with
+        match pl.mkBumps rel cm.pins (pbs.map (·.bumps)) with
         | .error e => .error e
         | .ok bumps =>
           if cm.isMatch || !new.isEmpty || pl.nonTrivial bumps || decide (1 < pb.length) then
@@ -413,30 +417,31 @@ def finish {π β} (pl : Plug π β) (head : Nat) (st : St β) (c : Nat) (cm : C
             | none, _ => .error .typeError
             | _, .error e => .error e
             | some bn, .ok na =>
-              .ok (st.addBuild { commit := c, parents := frontier, explicit := cm.isMatch, bns := bns }
+              .ok (st.addBuild { commit := c, parents := frontier, explicit := cm.isMatch, bns := bns, time := cm.time }
                     bn bpar new pb bumps na)
           else
             .ok (st.skipBuild c frontier bns bpar pb)
   else if cm.isMatch then
-    .ok { st with rp := st.rp.addRC { commit := c, parents := frontier, explicit := true, bns := [] } }
+    .ok { st with rp := st.rp.addRC { commit := c, parents := frontier, explicit := true, bns := [], time := cm.time } }
   else
     .ok { st with rp := st.rp.addPlain c frontier }
 
-/-- one step of the DFS loop for the commit `c` below a commit whose `rc_parents` so far is `acc` -/
+/-- one step of the DFS loop for the commit `c` below a commit whose `rc_parents` so far is `acc` and whose relevant
+components are `rel` (for the head: the candidates computed from the head's time) -/
 def visit {π β} (h : Hist π) (pl : Plug π β) (head : Nat) :
-    Nat → St β × List Nat → Nat → Except Err (St β × List Nat)
-  | 0, _, _ => .error .outOfFuel
-  | fuel + 1, (st, acc), c =>
+    Nat → List Nat → St β × List Nat → Nat → Except Err (St β × List Nat)
+  | 0, _, _, _ => .error .outOfFuel
+  | fuel + 1, rel, (st, acc), c =>
     match classify st.rp c with
     | some cl => .ok (st, addCls acc cl)
     | none =>
       match h.commits[c]? with
       | none => .error .keyError
       | some cm =>
-        match cm.parents.reverse.foldlM (visit h pl head fuel) (st, []) with
+        match cm.parents.reverse.foldlM (visit h pl head fuel (pl.relStep cm.time rel)) (st, []) with
         | .error e => .error e
         | .ok (st1, frontier) =>
-          match finish pl head st1 c cm frontier with
+          match finish pl head (pl.relStep cm.time rel) st1 c cm frontier with
           | .error e => .error e
           | .ok st2 =>
             match classify st2.rp c with
@@ -501,37 +506,78 @@ def endBranch {π β} (pl : Plug π β) (first : Bool) (b : Branch) (st : St β)
 /-- `_read_branch` -/
 def readBranch {π β} (h : Hist π) (pl : Plug π β) (first : Bool) (rp : Repo β) (b : Branch) :
     Except Err (Repo β × RBranch β) :=
-  match visit h pl b.head h.commits.length ({ rp := rp, br := Br.empty }, []) b.head with
-  | .error e => .error e
-  | .ok (st, rheads) => endBranch pl first b st rheads
-
-/-- the loop over the sorted branches; the result is in processing order -/
-def readBranches {π β} (h : Hist π) (pl : Plug π β) : Bool → Repo β → List Branch →
-    Except Err (Repo β × List (RBranch β))
-  | _, rp, [] => .ok (rp, [])
-  | first, rp, b :: bs =>
-    match readBranch h pl first rp b with
+  match h.commits[b.head]? with
+  | none => .error .keyError
+  | some hc =>
+    match visit h pl b.head h.commits.length (pl.relStep hc.time pl.relInit) ({ rp := rp, br := Br.empty }, []) b.head with
     | .error e => .error e
-    | .ok (rp1, rb) =>
-      match readBranches h pl false rp1 bs with
-      | .error e => .error e
-      | .ok (rp2, rbs) => .ok (rp2, rb :: rbs)
+    | .ok (st, rheads) => endBranch pl first b st rheads
+
+/-- `min_rbuild_timestamp` after the builds of one branch's `bn_map` are registered -/
+def minTs (rcs : List RC) : Option Nat → List (BN × Nat) → Except Err (Option Nat)
+  | m, [] => .ok m
+  | m, (_, i) :: r =>
+    match rcs[i]? with
+    | none => .error .keyError
+    | some rc => minTs rcs (some (match m with | none => rc.time | some x => min rc.time x)) r
+
+/-- the obsolete-branch test of `RGraph.__init__` : every build found so far is more than
+`_OBSOLETE_BRANCH_CUTOFF_PERIOD` younger than the head of the branch -/
+def obsolete (mt : Option Nat) (headTime : Nat) : Bool :=
+  match mt with
+  | none => false
+  | some m => decide (headTime + Gen.Ghist.obsoleteCutoff < m)
+
+/-- place holder of a branch that was skipped as obsolete (it is not in `self.branches`) -/
+def RBranch.skipped {β} (name : List Char) : RBranch β :=
+  { name := name, rheads := [], rbuilds := [], bnMap := [] }
+
+/-- the loop over the sorted branches; the result is in processing order.  `mt` is `min_rbuild_timestamp`,
+`first` tells that no branch was read yet (`prev_branch is None`) -/
+def readBranches {π β} (h : Hist π) (pl : Plug π β) : Option Nat → Bool → Repo β → List Branch →
+    Except Err (Repo β × List (RBranch β) × Option Nat)
+  | mt, _, rp, [] => .ok (rp, [], mt)
+  | mt, first, rp, b :: bs =>
+    match h.commits[b.head]? with
+    | none => .error .keyError
+    | some hc =>
+      if obsolete mt hc.time then
+        match readBranches h pl mt first rp bs with
+        | .error e => .error e
+        | .ok (rp2, rbs, mt2) => .ok (rp2, RBranch.skipped b.name :: rbs, mt2)
+      else
+        match readBranch h pl first rp b with
+        | .error e => .error e
+        | .ok (rp1, rb) =>
+          match minTs rp1.rcs mt rb.bnMap with
+          | .error e => .error e
+          | .ok mt1 =>
+            match readBranches h pl mt1 false rp1 bs with
+            | .error e => .error e
+            | .ok (rp2, rbs, mt2) => .ok (rp2, rb :: rbs, mt2)
 
 /-- `RGraph` -/
 structure Graph (β : Type) where
   rcs : List RC
   builds : List (RB β)          -- `self.brcommits` : every build that has a build commit, creation order
-  all : List (RBranch β)        -- every branch read, processing order (lower-sorted first)
+  all : List (RBranch β)        -- every release branch, processing order (lower-sorted first); skipped ones are empty
   branches : List (RBranch β)   -- `self.branches` : reversed, branches without builds dropped
+  minTs : Option Nat            -- `min_rbuild_timestamp` : time of the oldest commit of a build in some `bn_map`
 
 def branchesOf {π} (h : Hist π) : List Branch := sortBranches (releaseBranches h.remote h.refs)
 
 def rgraph {π β} (h : Hist π) (pl : Plug π β) : Except Err (Graph β) :=
-  match readBranches h pl true Repo.empty (branchesOf h) with
+  match readBranches h pl none true Repo.empty (branchesOf h) with
   | .error e => .error e
-  | .ok (rp, rbs) =>
+  | .ok (rp, rbs, mt) =>
     .ok { rcs := rp.rcs, builds := rp.builds, all := rbs,
-          branches := rbs.reverse.filter (fun rb => !rb.rbuilds.isEmpty) }
+          branches := rbs.reverse.filter (fun rb => !rb.rbuilds.isEmpty), minTs := mt }
+
+/-- the commit times are inside the window outside which a branch is treated as obsolete: no commit is more than
+`_OBSOLETE_BRANCH_CUTOFF_PERIOD` younger than the head of a release branch -/
+def Hist.InWindow {π} (h : Hist π) : Prop :=
+  ∀ b ∈ branchesOf h, ∀ hc, h.commits[b.head]? = some hc →
+    ∀ (c : Nat) (cm : Commit π), h.commits[c]? = some cm → cm.time ≤ hc.time + Gen.Ghist.obsoleteCutoff
 
 /-! ## the report (what `get_rbuilds_list` / `get_printable_rcommits` show) -/
 
